@@ -180,6 +180,9 @@ package bug
 //@   ensures [unknown-target-is-noop]     !known ==> unchanged
 //@   ensures [non-comment-target-is-noop] !isComment ==> unchanged
 //@   ensures [author-becomes-actor]       isComment ==> (exists k int :: { snapshot.Actors[k] } 0 <= k && k < len(snapshot.Actors) && snapshot.Actors[k].Id() == op.Author().Id())
+// (the timeline entry of the comment is updated through CommentTimelineItem.Append, verified above, with a comment
+// value that carries the operation's text and files)
+//@   assert at `target.Append(comment)` [edit-carries-text-and-files] comment.Message == op.Message && comment.Files == op.Files && comment.combinedId == cid
 //@   ensures [same-comments]              len(snapshot.Comments) == len(old(snapshot.Comments)) && snapshot.Timeline == old(snapshot.Timeline)
 //@   ensures [comment-edited]       isComment ==> (forall k int :: { snapshot.Comments[k] } 0 <= k && k < len(snapshot.Comments) && old(snapshot.Comments[k]).combinedId == cid && (forall j int :: { snapshot.Comments[j] } 0 <= j && j < k ==> old(snapshot.Comments[j]).combinedId != cid) ==> snapshot.Comments[k].Message == op.Message && snapshot.Comments[k].Files == op.Files && snapshot.Comments[k].combinedId == cid && snapshot.Comments[k].Author == old(snapshot.Comments[k]).Author)
 //@   ensures [other-comments-kept]  forall k int :: { snapshot.Comments[k] } 0 <= k && k < len(snapshot.Comments) && !(0 <= k && k < len(snapshot.Comments) && old(snapshot.Comments[k]).combinedId == cid && (forall j int :: { snapshot.Comments[j] } 0 <= j && j < k ==> old(snapshot.Comments[j]).combinedId != cid)) ==> snapshot.Comments[k] == old(snapshot.Comments[k])
@@ -211,6 +214,7 @@ package bug
 //@   ensures [nothing-else]    forall k int :: { snapshot.Labels[k] } 0 <= k && k < len(snapshot.Labels) ==> (exists i int :: { old(snapshot.Labels[i]) } 0 <= i && i < n0 && old(snapshot.Labels[i]) == snapshot.Labels[k]) || (exists j int :: { op.Added[j] } 0 <= j && j < len(op.Added) && op.Added[j] == snapshot.Labels[k])
 //@   ensures [old-kept]        forall i int :: { old(snapshot.Labels[i]) } 0 <= i && i < n0 && (forall j int :: { op.Removed[j] } 0 <= j && j < len(op.Removed) ==> op.Removed[j] != old(snapshot.Labels[i])) ==> (exists k int :: { snapshot.Labels[k] } 0 <= k && k < len(snapshot.Labels) && snapshot.Labels[k] == old(snapshot.Labels[i]))
 //@   ensures [added-kept]      forall a int :: { op.Added[a] } 0 <= a && a < len(op.Added) && (forall j int :: { op.Removed[j] } 0 <= j && j < len(op.Removed) ==> op.Removed[j] != op.Added[a]) ==> (exists k int :: { snapshot.Labels[k] } 0 <= k && k < len(snapshot.Labels) && snapshot.Labels[k] == op.Added[a])
+//@   ensures [sorted]          forall i int :: { snapshot.Labels[i] } forall j int :: { snapshot.Labels[j] } 0 <= i && i < j && j < len(snapshot.Labels) ==> !(string(snapshot.Labels[j]) < string(snapshot.Labels[i]))
 //@   ensures [timeline] len(snapshot.Timeline) == m + 1 && (forall k int :: { snapshot.Timeline[k] } 0 <= k && k < m ==> snapshot.Timeline[k] == old(snapshot.Timeline[k])) && typeof(snapshot.Timeline[m]) == type[*LabelChangeTimelineItem]
 //@   ensures [item]     snapshot.Timeline[m].(*LabelChangeTimelineItem).Added == op.Added && snapshot.Timeline[m].(*LabelChangeTimelineItem).Removed == op.Removed && snapshot.Timeline[m].(*LabelChangeTimelineItem).Author == op.Author() && snapshot.Timeline[m].(*LabelChangeTimelineItem).combinedId == entity.CombineIds(snapshot.id, op.Id())
 //@   ensures [actor]    exists k int :: { snapshot.Actors[k] } 0 <= k && k < len(snapshot.Actors) && snapshot.Actors[k].Id() == op.Author().Id()
@@ -264,3 +268,9 @@ package bug
 //@     invariant dag.applyCount == c0 + rangeindex + 1
 //@     invariant rangeindex < 0 ==> snap.Status == common.OpenStatus && len(snap.Timeline) == 0 && len(snap.Comments) == 0 && len(snap.Labels) == 0
 //@     invariant forall k int :: { rangeslice[k] } 0 <= k && k <= rangeindex ==> dag.applied[c0 + k] == rangeslice[k] && dag.appliedOn[c0 + k] == snap && snap.Operations[k] == rangeslice[k]
+
+// The comparator of the label sort: plain string order.
+//@ func (*LabelChangeOperation).Apply$1
+//@   props C10
+//@   modifies nothing
+//@   ensures result == (string(snapshot.Labels[i]) < string(snapshot.Labels[j]))
